@@ -276,12 +276,13 @@ impl Decoder {
 pub uninterp spec fn lzw_expanded(early: bool, data: Seq<u8>) -> Option<Seq<u8>>;
 pub open spec fn early_change_on(p: &LZWFlateParams) -> bool { p.early_change == 1 }
 // stands for `decoder.into_stream(&mut out).decode_all(data).status?` (io::Error -> PdfError by `?`)
+// weezl's size argument is the SYMBOL width: PDF LZW (ISO 7.4.4.2) has 8-bit symbols, 9-bit initial codes (see units/codecs2)
 #[verifier::external_body]
 fn hoist_lzw_decode_all(decoder: &mut Decoder, out: &mut Vec<u8>, data: &[u8]) -> (r: Result<()>)
     requires old(out)@.len() == 0
-    ensures r is Ok ==> old(decoder).msb_first && old(decoder).min_code_size == 9
+    ensures r is Ok ==> old(decoder).msb_first && old(decoder).min_code_size == 8
                         ==> lzw_expanded(old(decoder).early, data@) == Some(final(out)@),
-            r is Err ==> old(decoder).msb_first && old(decoder).min_code_size == 9
+            r is Err ==> old(decoder).msb_first && old(decoder).min_code_size == 8
                         ==> lzw_expanded(old(decoder).early, data@) is None,
 { unimplemented!() }
 
